@@ -399,3 +399,165 @@ func ruleR18_19(p *Program, r *Report) {
 		}
 	}
 }
+
+// R18.20: in the assembly decode loop no byte is read through the match-source pointer before the look-back check.
+func ruleR18_20(p *Program, r *Report) {
+	id := "R18.20"
+	if r.Prop == "C03" {
+		id = "R03.17"
+	}
+	r.Expect(id, 1)
+	if asmLoadFailures(p, r, id) {
+		return
+	}
+	lookback, ok := constOf(p, flateRel, "errorNoInvalidLookback")
+	if !ok {
+		r.Undecided(id, "anchors", "-", "errorNoInvalidLookback exists", "not found")
+		return
+	}
+	for _, u := range p.Asm().Units {
+		if u.Text.Name != "decodeHuffmanAsmArchV3" {
+			continue
+		}
+		ins := u.Text.Instrs
+		// the exit block of the look-back error and the conditional jumps into it
+		exit := -1
+		for i, in := range ins {
+			if len(in.Labels) == 0 {
+				continue
+			}
+			for j := i; j < len(ins) && j < i+6; j++ {
+				x := ins[j]
+				if x.Mnem == "MOVQ" && len(x.Ops) == 2 && x.Ops[0].Kind == OpImm && x.Ops[0].Imm == lookback && x.Ops[1].Kind == OpReg && baseReg(x.Ops[1].Reg) == "AX" {
+					exit = i
+				}
+				if asmJumps[x.Mnem] || x.Mnem == "RET" {
+					break
+				}
+			}
+		}
+		n := 0
+		for j, in := range ins {
+			if !u.Flow.Reach[j] || !asmJumps[in.Mnem] || in.Mnem == "JMP" || j == 0 {
+				continue
+			}
+			if t, ok := u.Text.labelIdx[in.Ops[0].Name]; !ok || t != exit {
+				continue
+			}
+			cmp := ins[j-1]
+			if cmp.Mnem != "CMPQ" || cmp.Ops[0].Kind != OpReg {
+				continue
+			}
+			src := baseReg(cmp.Ops[0].Reg) // the match-source pointer compared with the start of the output
+			// its definition: the closest write of src before the comparison in straight-line code
+			def := -1
+			for k := j - 2; k >= 0 && len(ins[k+1].Labels) == 0; k-- {
+				if d := ins[k].dest(); d >= 0 && ins[k].Ops[d].Kind == OpReg && baseReg(ins[k].Ops[d].Reg) == src {
+					def = k
+					break
+				}
+			}
+			if def < 0 {
+				r.Undecided(id, u.Text.Name+"|source pointer", p.asmPos(u, cmp), "the match-source pointer is computed in the block that checks it", "definition of "+src+" not found")
+				continue
+			}
+			n++
+			// a read through src reachable from its definition without passing the check
+			isRead := func(i int) bool {
+				x := ins[i]
+				if strings.HasPrefix(x.Mnem, "PREFETCH") || x.Mnem == "LEAQ" {
+					return false
+				}
+				d := x.dest()
+				for oi, op := range x.Ops {
+					if op.Kind == OpMem && op.Base == src && oi != d {
+						return true
+					}
+				}
+				return false
+			}
+			// the register is reused later: stop at its next plain redefinition
+			redefined := func(i int) bool {
+				if i == def {
+					return false
+				}
+				x := ins[i]
+				d := x.dest()
+				return d >= 0 && x.Ops[d].Kind == OpReg && baseReg(x.Ops[d].Reg) == src && (strings.HasPrefix(x.Mnem, "MOV") || x.Mnem == "LEAQ" || x.Mnem == "XORQ") && !(len(x.Ops) == 2 && x.Ops[0].Kind == OpReg && baseReg(x.Ops[0].Reg) == src)
+			}
+			found, at := asmPathAvoiding(u.Flow, def+1, isRead, func(i int) bool { return i == j || redefined(i) })
+			why := ""
+			if found {
+				why = fmt.Sprintf("the load at line %d (%s) reads through the match-source pointer on a path that has not passed the look-back check at line %d: a match whose distance exceeds what has been produced copies bytes from in front of the output buffer instead of being rejected", ins[at].Line, strings.TrimSpace(ins[at].Raw), in.Line)
+			}
+			r.Check(!found, id, u.Text.Name+"|window reads behind the look-back check", p.asmPos(u, in), "every read through the match-source pointer is behind the look-back check", why)
+		}
+		if n == 0 {
+			r.Undecided(id, u.Text.Name+"|look-back check", "-", "the loop compares the match-source pointer with the start of the output", "not found")
+		}
+	}
+}
+
+// ---------- R18.21 = R01.17: the vector width test is applied to the full sum ----------
+
+// ruleR18_21: the vector token encoders leave their fast path when some lane's code is too long for it
+// (`VPCMPGTD limit, lens, mask; test mask; JNZ long_codes`). The lengths tested must be the complete sum: the register
+// compared is not one that a later vector add has already folded into another register before the compare (testing
+// the distance part alone keeps over-long codes in the fast path, where their high bits are shifted out).
+func ruleR18_21(p *Program, r *Report) {
+	id := "R18.21"
+	if r.Prop == "C01" {
+		id = "R01.17"
+	}
+	r.Expect(id, 2)
+	if asmLoadFailures(p, r, id) {
+		return
+	}
+	for _, u := range p.Asm().Units {
+		ins := u.Text.Instrs
+		for j, in := range ins {
+			if !u.Flow.Reach[j] || in.Mnem != "VPCMPGTD" || len(in.Ops) != 3 || in.Ops[1].Kind != OpReg {
+				continue
+			}
+			// followed by a test of the mask and a conditional jump
+			guarded := false
+			for k := j + 1; k < len(ins) && k <= j+2; k++ {
+				if asmJumps[ins[k].Mnem] && ins[k].Mnem != "JMP" {
+					guarded = true
+				}
+			}
+			if !guarded {
+				continue
+			}
+			reg := in.Ops[1].Reg
+			def := -1
+			for k := j - 1; k >= 0 && len(ins[k+1].Labels) == 0; k-- {
+				if d := ins[k].dest(); d >= 0 && ins[k].Ops[d].Kind == OpReg && ins[k].Ops[d].Reg == reg {
+					def = k
+					break
+				}
+			}
+			if def < 0 {
+				r.Undecided(id, u.Text.Name+"|width test", p.asmPos(u, in), "the lengths compared with the fast-path limit are computed in the block that tests them", "definition of "+reg+" not found")
+				continue
+			}
+			why := ""
+			for k := def + 1; k < j; k++ {
+				x := ins[k]
+				if x.Mnem != "VPADDD" && x.Mnem != "VPADDQ" {
+					continue
+				}
+				d := x.dest()
+				if d < 0 || x.Ops[d].Kind != OpReg || x.Ops[d].Reg == reg {
+					continue
+				}
+				for oi, op := range x.Ops {
+					if oi != d && op.Kind == OpReg && op.Reg == reg {
+						why = fmt.Sprintf("%s is compared with the fast-path limit at line %d, but line %d (%s) has already added it into %s: a partial sum is tested, lanes whose complete code is longer than the fast path can hold stay in it and lose their high bits", reg, in.Line, x.Line, strings.TrimSpace(x.Raw), x.Ops[d].Reg)
+					}
+				}
+			}
+			r.Check(why == "", id, u.Text.Name+"|width test on the complete sum", p.asmPos(u, in), "the code lengths compared with the fast-path limit are the complete per-lane sum", why)
+		}
+	}
+}
